@@ -457,3 +457,34 @@ func (s *State) UnitEncode(unit string, v any, h int) V {
 	}
 	return s.emit(ev)
 }
+
+func asCompound(x any) (rtcp.CompoundPacket, bool) {
+	switch p := x.(type) {
+	case []rtcp.Packet:
+		return rtcp.CompoundPacket(p), true
+	case *rtcp.CompoundPacket:
+		return *p, true
+	}
+	return nil, false
+}
+
+// Validate calls CompoundPacket.Validate on a list or compound handle.
+func (s *State) Validate(h int) V {
+	x := s.Pk[h]
+	before := absAny(x)
+	c, _ := asCompound(x)
+	var err error
+	pan, _ := guarded(func() string { return fmt.Sprintf("validate %v", before) }, func() { err = c.Validate() })
+	return s.emit(V{"op": "validate", "h": h, "ok": !pan && err == nil, "panic": pan, "post": post(before, x)})
+}
+
+// CNAME calls CompoundPacket.CNAME.
+func (s *State) CNAME(h int) V {
+	x := s.Pk[h]
+	before := absAny(x)
+	c, _ := asCompound(x)
+	var err error
+	var name string
+	pan, _ := guarded(func() string { return fmt.Sprintf("cname %v", before) }, func() { name, err = c.CNAME() })
+	return s.emit(V{"op": "cname", "h": h, "ok": !pan && err == nil, "panic": pan, "out": abs.Bytes([]byte(name)), "post": post(before, x)})
+}
